@@ -59,7 +59,7 @@ func hasRecoverDefer(f *ssa.Function) (*ssa.Function, bool) {
 // c16Barriers: B1
 func c16Barriers(p *load.Program, r *core.Report) {
 	rule := "C16.B1 recover-barriers"
-	r.Floor(rule, 5)
+	r.Floor(rule, 6)
 	// named barriers
 	dec := p.Func("net/edf", "", "Decode")
 	if dec == nil {
